@@ -448,7 +448,7 @@ def one_case(args):
 def run(res):
     exe = build.fastpasta("rel")
     wd = scratch("c02")
-    reps = 1 if res.tier == "quick" else 12
+    reps = 1 if res.tier == "quick" else 60
     jobs = []
     c = 0
     for rep in range(reps):
